@@ -541,16 +541,28 @@ func (n *VerifNode) releaseRole(s State) {
 	n.role(s).release()
 }
 
+// verifFSMWatchdog: how long the harness waits for the fsm goroutine before it calls the node deadlocked.
+var verifFSMWatchdog = 15 * time.Second
+
 func (n *VerifNode) syncFSM() {
 	r := n.R
+	// Raft.lastApplied(), as the GetInfo task calls it from the state loop: the fsm goroutine works off
+	// everything queued before it. If it never answers, the state loop is deadlocked with the fsm
+	// goroutine (reported as class "deadlock"; the watchdog is far beyond anything the recording FSM needs)
 	t := lastApplied{newTask()}
 	select {
 	case r.fsm.ch <- t:
 		select {
 		case <-t.done:
 		case <-n.fsmDead:
+		case <-time.After(verifFSMWatchdog):
+			n.setPanic("deadlock.lastApplied")
+			return
 		}
 	case <-n.fsmDead:
+	case <-time.After(verifFSMWatchdog):
+		n.setPanic("deadlock.lastApplied")
+		return
 	}
 	select {
 	case <-n.fsmDead:
